@@ -44,10 +44,11 @@ COMPONENTS = {
 }
 EXPECTED_PROBES = ["empty_partition", "partition_only_inert_rows", "partition_covered_by_box",
                    "step_filter", "step_set_geometry", "step_pack", "step_parquet",
-                   "step_parquet_bounds", "step_parquet_geometry", "query_sjoin", "query_cx"]
+                   "step_parquet_bounds", "step_parquet_geometry", "query_sjoin", "query_cx",
+                   "query_other_geometry_series"]
 
 QUERIES = ("cx", "cx", "cx_series", "cx_partitions", "bounds", "total_bounds", "area", "length",
-           "intersects_bounds", "sjoin")
+           "intersects_bounds", "sjoin", "other_total_bounds", "other_cx")
 
 
 # ------------------------------------------------------------------ generation
@@ -476,6 +477,25 @@ def _query(q, ddf, snaps, active, template, case, probes, sig, packed):
         if need - allrows:
             raise Bad("cx_partitions-lost-rows", f"cx_partitions box={box} omit={q['omit']}: "
                       f"intersecting rows not returned: {list((need - allrows).elements())[:3]}")
+    elif kind in ("other_total_bounds", "other_cx"):
+        # a geometry column that is not the active one: its series carries its own
+        # partition bounds (propagated from the frame's cache when there is one)
+        others = [c for c in template["order"] if c in template["geo"] and c != active]
+        if not others:
+            return
+        oc = others[case["seed"] % len(others)]
+        probes["query_other_geometry_series"] = 1
+        sig["other_column"] = True
+        if kind == "other_total_bounds":
+            got = _guard("series[other].total_bounds", lambda: ddf[oc].total_bounds, sig)
+            exp = M[oc].total_bounds
+            if not models.bounds_equal(tuple(got), tuple(exp)):
+                raise Bad("mismatch@other_total_bounds", f"total_bounds of the non-active "
+                          f"geometry column {oc!r}: {tuple(got)} vs pandas {tuple(exp)}")
+        else:
+            got = _guard("series[other].cx", lambda: ddf[oc].cx[xs, ys].compute(), sig)
+            exp = M[oc].cx[xs, ys]
+            cmp_frames(got.to_frame(), exp.to_frame(), "series[other].cx")
     elif kind == "bounds":
         got = _guard("bounds", lambda: ddf.geometry.bounds.compute(), sig)
         exp = M.geometry.bounds
